@@ -305,7 +305,7 @@ void Circuit::append_from_text(std::string_view text) {
     circuit_read_operations(
         *this,
         [&]() {
-            return k < text.size() ? text[k++] : EOF;
+            return k < text.size() ? (int)(uint8_t)text[k++] : EOF;
         },
         READ_CONDITION::READ_UNTIL_END_OF_FILE);
 }
